@@ -73,6 +73,10 @@ Proof.
   - unfold get_dynamic_evaluate_fn. rewrite (tl_get_none_congr gclass 0 g_dynamic_evaluate gl gl'); auto.
     match goal with |- tl_get ?k ?d l = tl_get ?k ?d l' => exact (tl_get_exact_congr0 lclass 0 k d l l' eq_refl Hl) end.
   - eapply tl_peek_congr; eauto.
+  - unfold stack_read.
+    destruct (stack_get_congr lclass 0 k_dynstack l l' eq_refl Hl) as [E|[[E1 E2]|[E1 E2]]]; rewrite ?E, ?E1, ?E2; reflexivity.
+  - unfold stack_read.
+    destruct (stack_get_congr gclass 0 g_dynstack gl gl' eq_refl Hg) as [E|[[E1 E2]|[E1 E2]]]; rewrite ?E, ?E1, ?E2; reflexivity.
 Qed.
 
 (* --- writes ------------------------------------------------------------------------------------------------ *)
@@ -220,6 +224,16 @@ Proof.
     pose proof (load_types_enter_congr a l l' g g' Hg) as C.
     destruct (load_types_enter a l g) as [[[l1 g1] sv]|]; destruct (load_types_enter a l' g') as [[[l1' g1'] sv']|]; try contradiction.
     destruct C as [-> [-> [-> C]]]. unfold enter_rel_state. split; auto. apply obs_eq_split. cbn [fst snd]. split; auto.
+  - (* the mixing guard reads only the truth value of the two stacks *)
+    unfold dynguard_enter, enter_rel_state.
+    assert (TG : truthy (tl_get g_dynstack v_none (snd s)) = truthy (tl_get g_dynstack v_none (snd t))).
+    { unfold tl_get. destruct (stack_get_congr gclass 0 g_dynstack (snd s) (snd t) eq_refl Hg) as [E|[[E1 E2]|[E1 E2]]]; rewrite ?E, ?E1, ?E2; reflexivity. }
+    assert (TL : truthy (tl_get k_dynstack v_none (fst s)) = truthy (tl_get k_dynstack v_none (fst t))).
+    { unfold tl_get. destruct (stack_get_congr lclass 0 k_dynstack (fst s) (fst t) eq_refl Hl) as [E|[[E1 E2]|[E1 E2]]]; rewrite ?E, ?E1, ?E2; reflexivity. }
+    rewrite TG, TL. destruct (truthy a); match goal with |- context [if ?b then _ else _] => destruct b end; auto;
+      split; auto; apply obs_eq_split; auto.
+  - unfold enter_rel_state. destruct a as [x|d|x]; auto. split; auto. apply obs_eq_split. cbn [fst snd]. split; auto. apply tl_push_congr; auto.
+  - unfold enter_rel_state. destruct a as [x|d|x]; auto. split; auto. apply obs_eq_split. cbn [fst snd]. split; auto. apply tl_push_congr; auto.
 Qed.
 
 (* --- programs cannot tell equivalent states apart ---------------------------------------------------------- *)
